@@ -425,3 +425,15 @@ pub struct TableStats {
     pub buffer_bytes: usize,
     pub size_per_column: Vec<(String, usize)>,
 }
+
+#[cfg(locustdb_verif)]
+impl Table {
+    /// `batch` for an external harness that drives the table without the flush thread.
+    pub fn verif_batch(&self) -> Option<Arc<Partition>> {
+        self.batch()
+    }
+
+    pub fn verif_make_evictable(&self, id: PartitionID) {
+        self.make_evictable(id)
+    }
+}
